@@ -187,6 +187,8 @@ func drawMatchCase(t *rapid.T) *matchCase {
 		c.Fault = sim.DrawSchedule(t, len(c.Input), nil)
 		c.Fault.FailAt = sim.Intn(t, len(c.Input)+1, "failat")
 		c.Fault.FailSticky = sim.Bool(t, "failsticky")
+		c.Fault.FailKind = sim.Intn(t, len(sim.FailErrors), "failkind")
+		c.Fault.FailData = sim.Bool(t, "failwithdata")
 	}
 	for _, f := range []string{"root_target", "descent", "wildcard", "union", "negative_index", "slice", "filter"} {
 		if _, ok := c.Feat[f]; !ok {
